@@ -2,30 +2,45 @@
 (***************************************************************************)
 (* C01 -- trace validation: parses recorded from the real                  *)
 (* debian._deb822_repro (harness/props/c01.py) are checked against         *)
-(* ReproTokenizer.  One trace = one document:                              *)
+(* ReproTokenizer.  One trace = one document, in one of two forms:         *)
+(*                                                                         *)
+(* abs = 0 (small documents: <= 60 lines of <= 100 code points)            *)
 (*   [lines |-> << [t |-> code points of the line as fed to the parser,    *)
 (*                  cls |-> candidate classes of the line (independent     *)
 (*                          classifier of the harness; more than one where *)
 (*                          the deb822 syntax and Unicode whitespace leave *)
 (*                          the class open)] >>,                           *)
-(*    exc |-> "none" or the exception raised by parse / dump / tokenize,   *)
-(*    outs |-> the observed outputs (dump() and the joined token texts) as *)
-(*             code points, kinds |-> observed token kinds (KindCode),     *)
-(*    parts |-> observed top-level parts (PartsView)]                      *)
+(*    exc |-> "none" or the exception type raised by parse/dump/tokenize,  *)
+(*    outs |-> the observed outputs (dump(), the joined token texts, the   *)
+(*             dump() repeated after later parses) as code points,         *)
+(*    kinds |-> observed token kinds (KindCode), parts |-> observed        *)
+(*    top-level parts (PartsView), diag |-> 1]                             *)
+(* abs = 1 (size-stressed documents: lines up to 64 KiB, up to 10 000      *)
+(*   lines).  What TLC scans stays small: a line is [n |-> its length,     *)
+(*   h |-> a 30-bit checksum of its text, hn |-> the checksum of the text  *)
+(*   followed by a newline, nl |-> 1 iff it ends in a newline, inner |-> 1 *)
+(*   iff it has a newline elsewhere, cls]; an observed output is           *)
+(*   [pieces |-> << <<length, checksum>> >>] of the output cut after every *)
+(*   newline.  The identity expectation is LENGTH-INDEPENDENT: a line is   *)
+(*   an opaque blob, the expected output is the sequence of the blobs (in  *)
+(*   mode N each followed by a newline), so length and checksum per blob   *)
+(*   are all the specification needs; the text itself never reaches TLC.   *)
+(*   diag = 0 (documents of more than 300 lines) skips the diagnostic      *)
+(*   replay below (its history variables grow with the document).          *)
 (*                                                                         *)
 (* VERDICT (step 0, decided here, not in the harness): the specification   *)
-(* derives termination flags and input mode from the code points; if the   *)
-(* document is in the domain of C01 (DocMode # "out") the parse must have  *)
-(* returned and every observed output must equal Expected = the lines (in  *)
-(* mode N each followed by a newline).  <<"ACCEPTED", tid>> is printed iff *)
-(* that holds (documents outside the domain are accepted whatever          *)
-(* happened).                                                              *)
+(* derives termination flags and input mode (abs = 0: from the code        *)
+(* points); if the document is in the domain of C01 (DocMode # "out") the  *)
+(* parse must have returned and every observed output must be the expected *)
+(* one = the lines (in mode N each followed by a newline).                 *)
+(* <<"ACCEPTED", tid>> is printed iff that holds (documents outside the    *)
+(* domain are accepted whatever happened).                                 *)
 (* DIAGNOSTIC (steps 1..n+1): the tokenizer/builder automaton is replayed  *)
 (* over the class sequence with the actions of ReproTokenizer and must     *)
-(* produce the observed token kinds (checked line by line)               *)
-(* and finally the observed part list; <<"AT", tid, l>> marks progress, a  *)
-(* document explained completely reaches l = n + 1.  A document that is    *)
-(* ACCEPTED but not explained is specification drift, not a violation.     *)
+(* produce the observed token kinds (checked line by line) and finally the *)
+(* observed part list; <<"AT", tid, l>> marks progress, a document         *)
+(* explained completely reaches l = n + 1.  A document that is ACCEPTED    *)
+(* but not explained is specification drift, not a violation.              *)
 (***************************************************************************)
 EXTENDS ReproTokenizer, Integers, IOUtils, TLCExt
 
@@ -41,11 +56,16 @@ Terminated(t) == Len(t) > 0 /\ t[Len(t)] = 10
 HasNl(t)      == \E j \in 1..Len(t) : t[j] = 10
 InnerNl(t)    == \E j \in 1..(Len(t) - 1) : t[j] = 10
 
+IsAbs(T) == T.abs = 1
+LTerminated(T, i) == IF IsAbs(T) THEN T.lines[i].nl = 1 ELSE Terminated(T.lines[i].t)
+LInnerNl(T, i)    == IF IsAbs(T) THEN T.lines[i].inner = 1 ELSE InnerNl(T.lines[i].t)
+LEmpty(T, i)      == IF IsAbs(T) THEN T.lines[i].n = 0 ELSE Len(T.lines[i].t) = 0
+
 \* the domain of C01: "each line ending in a newline, except possibly the last" (a line has at
 \* least one character and no newline inside), or "two or more lines, none terminated"
-DomT(T) == /\ \A i \in 1..Len(T.lines) : Len(T.lines[i].t) > 0 /\ ~InnerNl(T.lines[i].t)
-           /\ \A i \in 1..(Len(T.lines) - 1) : Terminated(T.lines[i].t)
-DomN(T) == Len(T.lines) >= 2 /\ \A i \in 1..Len(T.lines) : ~HasNl(T.lines[i].t)
+DomT(T) == /\ \A i \in 1..Len(T.lines) : ~LEmpty(T, i) /\ ~LInnerNl(T, i)
+           /\ \A i \in 1..(Len(T.lines) - 1) : LTerminated(T, i)
+DomN(T) == Len(T.lines) >= 2 /\ \A i \in 1..Len(T.lines) : ~LTerminated(T, i) /\ ~LInnerNl(T, i)
 DocMode(T) == IF DomT(T) THEN "T" ELSE IF DomN(T) THEN "N" ELSE "out"
 
 RECURSIVE Cat(_, _, _)
@@ -53,10 +73,19 @@ Cat(T, i, addNl) == IF i > Len(T.lines) THEN <<>>
                     ELSE T.lines[i].t \o (IF addNl THEN <<10>> ELSE <<>>) \o Cat(T, i + 1, addNl)
 Expected(T) == Cat(T, 1, DocMode(T) = "N")
 
+\* abs = 1: the expected output, cut after every newline, is one blob per line
+ExpectedPiece(T, i, nmode) == IF nmode THEN <<T.lines[i].n + 1, T.lines[i].hn>>
+                              ELSE <<T.lines[i].n, T.lines[i].h>>
+OutOk(T, o) == IF IsAbs(T)
+               THEN LET nmode == DocMode(T) = "N" IN
+                    /\ Len(T.outs[o].pieces) = Len(T.lines)
+                    /\ \A i \in 1..Len(T.lines) : T.outs[o].pieces[i] = ExpectedPiece(T, i, nmode)
+               ELSE T.outs[o] = Expected(T)
+
 Verdict(T) == DocMode(T) # "out" =>
                  /\ T.exc = "none"
                  /\ Len(T.outs) >= 1
-                 /\ \A o \in 1..Len(T.outs) : T.outs[o] = Expected(T)
+                 /\ \A o \in 1..Len(T.outs) : OutOk(T, o)
 
 TInit == /\ tid \in 1..Len(Traces)
          /\ l = 0
@@ -66,7 +95,7 @@ TInit == /\ tid \in 1..Len(Traces)
 
 TVerdict == /\ l = 0
             /\ (Verdict(Tr) => PrintT(<<"ACCEPTED", tid>>))
-            /\ IF DocMode(Tr) = "out"
+            /\ IF DocMode(Tr) = "out" \/ Tr.diag = 0
                THEN PrintT(<<"AT", tid, NL + 1>>) /\ l' = NL + 2
                ELSE l' = 1
             /\ UNCHANGED <<vars, tid>>
@@ -75,7 +104,7 @@ TVerdict == /\ l = 0
 KindsFrom(ts, K, from) == \A j \in from..Len(ts) : j <= Len(K) /\ KindCode(ts[j].k) = K[j]
 
 TLine == /\ 1 <= l /\ l <= NL
-         /\ \E j \in 1..Len(Tr.lines[l].cls) : Step(Tr.lines[l].cls[j], Terminated(Tr.lines[l].t))
+         /\ \E j \in 1..Len(Tr.lines[l].cls) : Step(Tr.lines[l].cls[j], LTerminated(Tr, l))
          /\ KindsFrom(toks', Tr.kinds, Len(toks) + 1)
          /\ PrintT(<<"AT", tid, l>>)
          /\ l' = l + 1 /\ UNCHANGED tid
